@@ -84,13 +84,13 @@ def write_sofa(path, recv_unit, radius, ptype, freqs, table, n_meas, rng):
         for v in ("Description", "MIDINote", "SourceTuningFrequency"):
             s.delete(v)
     if ptype == "cartesian":
-        s.ReceiverPosition = recv_unit * radius
+        s.ReceiverPosition = recv_unit * np.reshape(radius, (-1, 1)) if np.ndim(radius) else recv_unit * radius
         s.ReceiverPosition_Type = "cartesian"
         s.ReceiverPosition_Units = "metre"
     else:
         az = np.rad2deg(np.arctan2(recv_unit[:, 1], recv_unit[:, 0]))
         el = np.rad2deg(np.arcsin(np.clip(recv_unit[:, 2], -1, 1)))
-        s.ReceiverPosition = np.stack([az, el, np.full(R, radius)], axis=1)
+        s.ReceiverPosition = np.stack([az, el, np.full(R, radius) if not np.ndim(radius) else np.asarray(radius, dtype=float)], axis=1)
         s.ReceiverPosition_Type = "spherical"
         s.ReceiverPosition_Units = "degree, degree, metre"
     sf.write_sofa(path, s)
@@ -112,6 +112,10 @@ def make_directivity(rng, tag, band_freqs=None, ones=False):
     ptype = "cartesian" if rng.random() < 0.6 else "spherical"
     radius = 1.0 if rng.random() < 0.7 else float(np.round(rng.uniform(0.5, 3.0), 2))
     n_meas = 1 if rng.random() < 0.7 else 2
+    radius_scalar = radius
+    if len(recv) <= 60 and rng.random() < 0.3:
+        # measurement positions that are not all at the same distance (a few percent apart)
+        radius = radius * (1.0 + rng.uniform(-0.03, 0.03, len(recv)))
     os.makedirs(common.TMP, exist_ok=True)
     path = os.path.join(common.TMP, "c20_%d_%d_%s.sofa" % (os.getpid(), time.time_ns(), tag))
     try:
@@ -122,8 +126,9 @@ def make_directivity(rng, tag, band_freqs=None, ones=False):
             os.remove(path)
         except OSError:
             pass
-    info = dict(kind=kind, n_recv=len(recv), n_freq=nf, ptype=ptype, radius=radius, n_meas=n_meas,
-                freqs=freqs, table=table, recv_true=np.asarray(recv, dtype=float) * radius)
+    info = dict(kind=kind, n_recv=len(recv), n_freq=nf, ptype=ptype, radius=radius_scalar, n_meas=n_meas,
+                radius_varies=bool(np.ndim(radius)),
+                freqs=freqs, table=table, recv_true=np.asarray(recv, dtype=float) * (np.reshape(radius, (-1, 1)) if np.ndim(radius) else radius))
     # the measured directions WRITTEN to the file are the ground truth for every expectation and
     # for the model; what DirectivityMS parsed is compared against them separately
     dms._verif_recv_true = info["recv_true"]
@@ -235,6 +240,12 @@ def lookup_case(spec):
     w = oracle_dirs(pos, view, up, targets)
     idx, gap = oracle_index(recv, w)
     keep = gap >= TIE_EPS
+    if info.get("radius_varies"):
+        # 'nearest measured direction' is meant in angle; targets for which the position nearest in space is not
+        # the direction nearest in angle (possible when the radii differ) are left out
+        ang = np.argmax((recv / np.linalg.norm(recv, axis=1, keepdims=True)) @ w.T, axis=0)
+        keep &= (ang == idx)
+        out["dist"]["radius_varies"] = 1
     out["rejected"] += int((~keep).sum())
     targets, w, idx = targets[keep], w[keep], idx[keep]
     if len(targets) < 2 or not fs:
